@@ -150,6 +150,10 @@ pub fn base_config(network: &str) -> brc20_prog::Brc20ProgConfig {
     )
 }
 
+pub fn network() -> String {
+    v::CONFIG.read().bitcoin_rpc_network.clone()
+}
+
 pub fn chain_id() -> u64 {
     v::CONFIG.read().chain_id
 }
